@@ -177,11 +177,12 @@ theorem c11_cmpCCPC (hw : WFW c cu w) (p n : Nat) (a : List Byte) (n2 : Nat) (ha
   obtain ⟨r, h1, rfl, rfl⟩ := obs_inv h
   obtain ⟨k, hk, hlt, hof⟩ := cstrlen_of_mem (show (0 : Byte) ∈ a from ha)
   simp only [inDomain, abs_length hw.1, Bool.and_eq_true, decide_eq_true_eq] at hd
-  rw [hk, bindR_ok, partPartCompare_abs hw.1 p n (show k ≤ a.length by omega) 0 n2 hd.1 (Nat.zero_le _),
-    List.drop_zero] at h1
+  have hnk : n2 ≤ k := by have := hd.2; rw [hof, List.length_take] at this; omega
+  rw [hk, bindR_ok, partPartCompare_abs hw.1 p n (show k ≤ a.length by omega) 0 n2 hd.1.1 (Nat.zero_le _),
+    List.drop_zero, List.take_take, Nat.min_eq_left hnk] at h1
   cases h1
   refine c11_obs hw.1 ?_
-  simp only [spec, StdString.substr, hof]
+  simp only [spec, StdString.substr]
   rw [if_neg (by rw [abs_length hw.1]; omega), bindR_ok]
 
 /-- reading the buffer at an index up to and including the terminator -/
